@@ -1,7 +1,7 @@
 CONSTANTS
-  KPool <- KPoolC
-  FPool <- FPoolC
-  BadPool <- BadPoolC
+  KPool <- KPoolQ
+  FPool <- FPoolQ
+  BadPool <- BadPoolQ
   MaxRes = 2
   Depth = 2
 SPECIFICATION Spec
